@@ -14,6 +14,7 @@ import (
 	"regexp"
 	"runtime"
 	"runtime/debug"
+	"runtime/metrics"
 	"sort"
 	"strconv"
 	"strings"
@@ -324,6 +325,11 @@ func Known(key string) bool { return knownKeys[key] }
 var (
 	lastMu   sync.Mutex
 	lastFail *ReplayFile
+	// survey mode (development only, VERIF_SURVEY=1): do not stop at the first failure, record one
+	// example per distinct key and keep going. Never used by registered commands.
+	survey     = os.Getenv("VERIF_SURVEY") == "1"
+	surveyMu   sync.Mutex
+	surveyKeys = map[string]int{}
 )
 
 // TB is the subset of testing.TB / *rapid.T that is needed here.
@@ -342,6 +348,18 @@ func Report(t TB, kind string, c interface{}, f *Fail) bool {
 	}
 	if Known(f.Key) {
 		Rec.Exclude(f.Key)
+		return true
+	}
+	if survey {
+		surveyMu.Lock()
+		_, seen := surveyKeys[f.Key]
+		surveyKeys[f.Key]++
+		surveyMu.Unlock()
+		if !seen {
+			raw, _ := json.Marshal(c)
+			p := WriteViolation(&ReplayFile{Property: E.Property, Kind: kind, Key: f.Key, Msg: f.Msg, Case: raw})
+			fmt.Printf("SURVEY key=%q file=%s\n", f.Key, p)
+		}
 		return true
 	}
 	raw, err := json.Marshal(c)
@@ -588,13 +606,51 @@ func curCasePath() string {
 // SetCurrentCase persists the case about to run, so that the driver can re-run it alone if this
 // process dies (Go's out-of-memory and stack overflow are not recoverable).
 func SetCurrentCase(kind string, raw json.RawMessage) {
-	rf := ReplayFile{Property: E.Property, Kind: kind, Key: "fatal|process-death", Case: raw}
-	b, _ := json.Marshal(rf)
-	_ = os.MkdirAll(E.OutDir, 0o755)
-	_ = os.WriteFile(curCasePath(), b, 0o644)
+	curFileMu.Lock()
+	defer curFileMu.Unlock()
+	if curFile == nil {
+		_ = os.MkdirAll(E.OutDir, 0o755)
+		f, err := os.OpenFile(curCasePath(), os.O_CREATE|os.O_RDWR|os.O_TRUNC, 0o644)
+		if err != nil {
+			return
+		}
+		curFile = f
+	}
+	// hand-built JSON (kind and property are plain identifiers); padded with spaces to the previous length
+	// so that no truncate system call is needed per case
+	buf := curBuf[:0]
+	buf = append(buf, `{"property":"`...)
+	buf = append(buf, E.Property...)
+	buf = append(buf, `","kind":"`...)
+	buf = append(buf, kind...)
+	buf = append(buf, `","key":"fatal|process-death","case":`...)
+	buf = append(buf, raw...)
+	buf = append(buf, '}')
+	n := len(buf)
+	for len(buf) < curLen {
+		buf = append(buf, ' ')
+	}
+	curLen = n
+	curBuf = buf
+	_, _ = curFile.WriteAt(buf, 0)
 }
 
-func ClearCurrentCase() { _ = os.Remove(curCasePath()) }
+var (
+	curFileMu sync.Mutex
+	curFile   *os.File
+	curBuf    []byte
+	curLen    int
+)
+
+func ClearCurrentCase() {
+	curFileMu.Lock()
+	if curFile != nil {
+		curFile.Close()
+		curFile = nil
+	}
+	curFileMu.Unlock()
+	_ = os.Remove(curCasePath())
+}
 
 // StartWatch arms the per-case watchdog: if the case has not called StopWatch within budget the
 // process prints a marker and a goroutine dump and exits with status 3.
@@ -626,6 +682,14 @@ func StopWatch() {
 	curMu.Lock()
 	curOn = false
 	curMu.Unlock()
+}
+
+var allocSample = []metrics.Sample{{Name: "/gc/heap/allocs:bytes"}}
+
+// HeapAllocs returns the cumulative bytes allocated on the heap (runtime/metrics, no stop-the-world).
+func HeapAllocs() uint64 {
+	metrics.Read(allocSample)
+	return allocSample[0].Value.Uint64()
 }
 
 // AllocDelta runs fn and returns the cumulative number of heap bytes allocated during it
